@@ -56,7 +56,7 @@ def run(rep):
     # bounded stand-in for what CBMC cannot reach (VecDeque buffering of the IntoIterator adapters: out of memory at
     # K = 3; real Turtle parser as a source): exhaustive native enumeration over a small domain, labelled as such
     native.bounded_stand_in(rep, ID, "c15", [], "c15_enumerator",
-                            "all outcome sequences of length <= 4 over {end, Ok(1..3), Err}: 7 adapter chains x every sink fault position x step-wise/whole-stream; map/filter_map .into_iter() over batching sources (batch 1..3); batching source through filter+map; Turtle parser source with multi-triple statements and sink faults at every position; real stores as consumers (insert_all / remove_all / collect into Fast/Light graphs and datasets, HashSet, BTreeSet, Vec) with the source failing at every position of streams of <= 4 items: exactly the items before the failure are in the store",
+                            "all outcome sequences of length <= 4 over {end, Ok(1..3), Err}: 7 adapter chains x every sink fault position x step-wise/whole-stream; map/filter_map .into_iter() over batching sources (batch 1..3); batching source through filter+map; Turtle parser source with multi-triple statements and sink faults at every position; the TripleSource / QuadSource layers (try_for_each_triple / _quad, filter_ / map_ / filter_map_ triples and quads, to_quads / to_triples, for_each_triple, size hints) over every outcome sequence x sink fault position; real stores as consumers (insert_all / remove_all / collect into Fast/Light graphs and datasets, HashSet, BTreeSet, Vec) with the source failing at every position of streams of <= 4 items: exactly the items before the failure are in the store",
                             "sequences <= 4, batch <= 3", "MapSourceIterator::next / FilterMapSourceIterator::next (api/src/source/map.rs, filter_map.rs), sophia_turtle parser sources (rio_turtle underneath), insert_all / remove_all / CollectibleGraph / CollectibleDataset of the in-memory stores and std containers (inmem/src/graph.rs, dataset.rs, api/src/*/_foreign_impl.rs)",
                             "./check C15 --replay <this file>")
     if failed:
